@@ -46,6 +46,7 @@ func genC04(r *simrt.Rand, tier string) any {
 	g := &genCtx{r: r, baseUS: time.Date(2026, 3, 1, 12, 30, 0, 0, time.UTC).UnixMicro()}
 	n := 2 + r.Intn(11)
 	meass := []string{"cpu", "mem"}[:1+r.Intn(2)]
+	fav := weirdNames[r.Intn(len(weirdNames))]
 	for q := 0; q < n; q++ {
 		b := g.genBatch([]string{"mp", "mprow", "lp"}, []string{"db1"}, meass, 5, false)
 		// spaced row ids: a one- or two-byte corruption cannot turn one request's id into another's
@@ -59,6 +60,11 @@ func genC04(r *simrt.Rand, tier string) any {
 		rq := C04Req{B: b}
 		if r.Chance(35) {
 			rq.Weird = weirdNames[r.Intn(len(weirdNames))]
+			if r.Chance(50) {
+				// the same unusual name again, usually with another type: the
+				// "type changes of a column between requests" half of the property
+				rq.Weird = fav
+			}
 			typ := []string{"i", "f", "s", "b"}[r.Intn(4)]
 			if b.Kind == "lp" && (rq.Weird == "" || strings.ContainsAny(rq.Weird, " ,=")) {
 				// LP would need escaping; the escaped forms are C01's business
@@ -66,27 +72,46 @@ func genC04(r *simrt.Rand, tier string) any {
 			}
 			rq.B.Cols = append(rq.B.Cols, ColSpec{Name: rq.Weird, Type: typ})
 		}
-		switch r.Intn(12) {
-		case 0:
-			rq.Mut = Mut{Kind: "trunc", A: r.Intn(1000)}
-		case 1:
-			rq.Mut = Mut{Kind: "flip", A: r.Intn(100000), B: 1 + r.Intn(255)}
-		case 2:
-			rq.Mut = Mut{Kind: "inflate", A: r.Intn(100000)}
-		case 3:
-			rq.Mut = Mut{Kind: "gzip"}
-		case 4:
-			rq.Mut = Mut{Kind: "zstd"}
-		case 5:
-			rq.Mut = Mut{Kind: "gzip-trunc", A: r.Intn(1000)}
-		case 6:
-			rq.Mut = Mut{Kind: "gzip-bomb"}
-		case 7:
-			rq.Mut = Mut{Kind: "garbage", A: r.Intn(1 << 30), B: 1 + r.Intn(200)}
-		case 8:
-			rq.Mut = Mut{Kind: "empty"}
-		default:
-			rq.Mut = Mut{Kind: "none"}
+		// A body whose generic MessagePack parse reaches a bin32 header
+		// declaring 1-4 GiB makes the server really allocate (and, on reused
+		// address space, really clear) that much: seconds of page faults per
+		// request, minutes when several workers do it at once. The class is
+		// kept in the search but thinned to one in eight of its natural
+		// frequency so that it does not eat the budget of everything else.
+		for try := 0; ; try++ {
+			switch r.Intn(12) {
+			case 0:
+				rq.Mut = Mut{Kind: "trunc", A: r.Intn(1000)}
+			case 1:
+				rq.Mut = Mut{Kind: "flip", A: r.Intn(100000), B: 1 + r.Intn(255)}
+			case 2:
+				rq.Mut = Mut{Kind: "inflate", A: r.Intn(100000)}
+			case 3:
+				rq.Mut = Mut{Kind: "gzip"}
+			case 4:
+				rq.Mut = Mut{Kind: "zstd"}
+			case 5:
+				rq.Mut = Mut{Kind: "gzip-trunc", A: r.Intn(1000)}
+			case 6:
+				rq.Mut = Mut{Kind: "gzip-bomb"}
+			case 7:
+				rq.Mut = Mut{Kind: "garbage", A: r.Intn(1 << 30), B: 1 + r.Intn(200)}
+			case 8:
+				rq.Mut = Mut{Kind: "empty"}
+			default:
+				rq.Mut = Mut{Kind: "none"}
+			}
+			switch rq.Mut.Kind {
+			case "trunc", "flip", "inflate", "garbage":
+			default:
+				try = 16 // cannot introduce a bin32 header
+			}
+			if rq.B.Kind == "lp" || try >= 16 || r.Chance(12) {
+				break
+			}
+			if body, _ := rq.body(); !msgpackReachesHugeBin32(body) {
+				break
+			}
 		}
 		if r.Chance(30) {
 			rq.SleepUs = int64(r.Intn(p.Knobs.MaxBufferAgeMS*1500 + 1))
@@ -166,6 +191,7 @@ func runC04(planAny any, cfg simrt.Config) *simkit.Outcome {
 		status int
 		valid  bool
 		got    bool
+		alloc  uint64
 	}
 	var recs []*rec
 	var n *node
@@ -191,7 +217,7 @@ func runC04(planAny any, cfg simrt.Config) *simkit.Outcome {
 					path = "/api/v1/write/line-protocol?precision=" + rq.B.Prec
 				}
 				st, rb := n.post(path, map[string]string{"x-arc-database": rq.B.DB}, body)
-				rc.status, rc.got = st, true
+				rc.status, rc.got, rc.alloc = st, true, n.lastAlloc
 				if len(rb) > 160 {
 					rb = rb[:160]
 				}
@@ -217,6 +243,18 @@ func runC04(planAny any, cfg simrt.Config) *simkit.Outcome {
 	for i, rc := range recs {
 		if !rc.got || rc.status == 0 {
 			out.Violate("C04.no-response", "request %d got no HTTP response", i)
+		}
+		if rc.alloc >= allocBlowup {
+			body, _ := rc.rq.body()
+			// fingerprint by the input feature that explains it, not by how
+			// the generator arrived at the bytes
+			why := "no-huge-declared-length-in-body"
+			if rc.rq.B.Kind != "lp" && msgpackReachesHugeBin32(body) {
+				why = "msgpack-bin32-declares-over-1GiB"
+			}
+			out.Violate("C04.request-allocates-gigabytes."+why,
+				"request %d (%s, mut=%s, %d body bytes %x…) made the process allocate more than 1 GiB of heap before it was answered %d: a process with less memory than that dies with 'fatal error: runtime: out of memory' instead of answering",
+				i, rc.rq.B.Kind, rc.rq.Mut.Kind, len(body), body[:min(len(body), 24)], rc.status)
 		}
 	}
 	stored, _, err := n.readAll()
@@ -362,4 +400,106 @@ func descC04(planAny any) any {
 		s = append(s, fmt.Sprintf("%s×%d mut=%s weird=%q", rq.B.Kind, len(rq.B.IDs), rq.Mut.Kind, rq.Weird))
 	}
 	return map[string]any{"reqs": s, "buffer_size": p.Knobs.MaxBufferSize, "buffer_age_ms": p.Knobs.MaxBufferAgeMS, "workers": p.Knobs.FlushWorkers}
+}
+
+// msgpackReachesHugeBin32 walks body the way a generic MessagePack decoder
+// does (one top-level value, depth first) and reports whether it arrives at a
+// bin32 header declaring at least 1 GiB before anything else stops the parse.
+func msgpackReachesHugeBin32(body []byte) bool {
+	pos, budget, huge := 0, 4*len(body)+16, false
+	var value func(depth int) bool // false: parse stops (error or huge found)
+	need := func(n int) bool { return n >= 0 && pos+n <= len(body) }
+	u := func(n int) int {
+		v := 0
+		for i := 0; i < n; i++ {
+			v = v<<8 | int(body[pos+i])
+		}
+		pos += n
+		return v
+	}
+	seq := func(n, depth int) bool {
+		for i := 0; i < n; i++ {
+			if !value(depth + 1) {
+				return false
+			}
+		}
+		return true
+	}
+	value = func(depth int) bool {
+		budget--
+		if budget < 0 || depth > 64 || !need(1) {
+			return false
+		}
+		c := body[pos]
+		pos++
+		switch {
+		case c <= 0x7f, c >= 0xe0, c == 0xc0, c == 0xc2, c == 0xc3:
+			return true
+		case c >= 0x80 && c <= 0x8f:
+			return seq(2*int(c&0x0f), depth)
+		case c >= 0x90 && c <= 0x9f:
+			return seq(int(c&0x0f), depth)
+		case c >= 0xa0 && c <= 0xbf:
+			n := int(c & 0x1f)
+			if !need(n) {
+				return false
+			}
+			pos += n
+			return true
+		}
+		switch c {
+		case 0xc4, 0xc5, 0xc6, 0xd9, 0xda, 0xdb:
+			w := map[byte]int{0xc4: 1, 0xc5: 2, 0xc6: 4, 0xd9: 1, 0xda: 2, 0xdb: 4}[c]
+			if !need(w) {
+				return false
+			}
+			n := u(w)
+			if c == 0xc6 && n >= 1<<30 {
+				huge = true
+				return false
+			}
+			if !need(n) {
+				return false
+			}
+			pos += n
+			return true
+		case 0xca, 0xd2, 0xce:
+			return skip(&pos, 4, len(body))
+		case 0xcb, 0xd3, 0xcf:
+			return skip(&pos, 8, len(body))
+		case 0xcc, 0xd0:
+			return skip(&pos, 1, len(body))
+		case 0xcd, 0xd1:
+			return skip(&pos, 2, len(body))
+		case 0xdc, 0xde:
+			if !need(2) {
+				return false
+			}
+			n := u(2)
+			if c == 0xde {
+				n *= 2
+			}
+			return seq(n, depth)
+		case 0xdd, 0xdf:
+			if !need(4) {
+				return false
+			}
+			n := u(4)
+			if c == 0xdf {
+				n *= 2
+			}
+			return seq(n, depth)
+		}
+		return false // ext family, 0xc1: the decoder gives up
+	}
+	value(0)
+	return huge
+}
+
+func skip(pos *int, n, l int) bool {
+	if *pos+n > l {
+		return false
+	}
+	*pos += n
+	return true
 }
